@@ -692,7 +692,7 @@ func generate(prop string, seed int64, tier string) *Plan {
 			sp := g.sharedSpec()
 			p.Shared = append(p.Shared, sp)
 			// pointers print as addresses anywhere but in direct operands
-			g.sharedPtr = append(g.sharedPtr, (sp.K == "sbval" && len(sp.V) > 0) || (sp.K == "subbytes" && sp.I == 4))
+			g.sharedPtr = append(g.sharedPtr, ((sp.K == "sbval" || sp.K == "mbval") && len(sp.V) > 0) || (sp.K == "subbytes" && sp.I == 4))
 		}
 		if nt < 2 {
 			nt = 2 + g.r.Intn(3)
